@@ -62,12 +62,17 @@ CircleBdClause(t) ==
         quad(p) == <<IF p[1] * 4 >= c[1] * 1024 THEN 1 ELSE 0, IF p[2] * 4 >= c[2] * 1024 THEN 1 ELSE 0>>
         cnt(qd) == Cardinality({i \in DOMAIN t.pts : quad(t.pts[i]) = qd})
     IN IF \E qd \in {<<0, 0>>, <<0, 1>>, <<1, 0>>, <<1, 1>>} : ~BinomOK(cnt(qd), t.N, 1, 4, 0) THEN "uniform-on-circle" ELSE "ok"
+\* the edges of all rings of a polygon term, as one sequence
+RingEdgeSeq(r) == [i \in DOMAIN r |-> <<r[i], r[(i % Len(r)) + 1]>>]
+RECURSIVE AllEdgeSeq(_, _)
+AllEdgeSeq(rs, j) == IF j > Len(rs) THEN <<>> ELSE RingEdgeSeq(rs[j]) \o AllEdgeSeq(rs, j + 1)
 PolyBdClause(t) ==
     LET e == E(t)  env == [nm \in DOMAIN t.prm |-> t.prm[nm] \div F]
-        o == AffVQ(e.o, env)  a == AffVQ(e.a, env)  b == AffVQ(e.b, env)
+        o == IF e.k = "poly" THEN <<0, 0>> ELSE AffVQ(e.o, env)  a == IF e.k = "poly" THEN <<0, 0>> ELSE AffVQ(e.a, env)  b == IF e.k = "poly" THEN <<0, 0>> ELSE AffVQ(e.b, env)
         \* which edge a point is on: smallest |cross product| with the edge direction
         crossv(p, u, v) == AbsI((p[1] * 4 - u[1] * 1024) * (v[2] - u[2]) - (p[2] * 4 - u[2] * 1024) * (v[1] - u[1]))
-        edges == IF e.k = "tri" THEN <<<<o, a>>, <<a, b>>, <<b, o>>>>
+        edges == IF e.k = "poly" THEN AllEdgeSeq(e.rings, 1)
+                 ELSE IF e.k = "tri" THEN <<<<o, a>>, <<a, b>>, <<b, o>>>>
                  ELSE <<<<o, a>>, <<a, <<a[1] + b[1] - o[1], a[2] + b[2] - o[2]>>>>, <<<<a[1] + b[1] - o[1], a[2] + b[2] - o[2]>>, b>>, <<b, o>>>>
         lens == [k \in DOMAIN edges |-> Len1024(edges[k][2][1] - edges[k][1][1], edges[k][2][2] - edges[k][1][2])]
         tot == SumOver(DOMAIN lens, lens)
